@@ -765,6 +765,23 @@ def colonIsToken (cfg : Config) (l : LineIn) (o : OutLine) : Bool :=
     let lead := utf8Len o.text - utf8Len (formatLineTokens l.toks cfg.kwCase cfg.style l.relexOk)
     (tokenOffsetsFrom cfg.kwCase cfg.style none lead l.toks).any fun (off, t) => off == c && t.kind == .Colon
 
+/-- The byte index picked by `find_assignment_op` on `lineText` (a re-emitted token line, after the colon
+alignment) is where an `Assign` or `Arrow` token of that line starts: the text in front of the index, without
+its white space, is the concatenation of the tokens in front of that token.  False for compact `a<=>b`
+(tokens `<=` `>`): the text search finds "=>" across the token boundary. -/
+def assignOpIsToken (kc : KwCase) (toks : List Tok) (lineText : Text) : Bool :=
+  match findAssignOp lineText with
+  | none => true
+  | some c => go (nonWs (splitAtByte lineText c).1) toks
+where
+  go (pre : Text) : List Tok → Bool
+    | [] => false
+    | t :: rest =>
+      if pre.isEmpty then t.kind == .Assign || t.kind == .Arrow
+      else
+        let tx := nonWs (recase kc t)
+        if tx.isPrefixOf pre then go (pre.drop tx.length) rest else false
+
 /-- A line whose tokens are re-emitted by `format_line_tokens` (no mask, not blank). -/
 def LineIn.isTokenLine (l : LineIn) : Bool :=
   !(l.inBlockComment || l.hasLineComment || l.hasPragma || (trim l.text).isEmpty)
@@ -800,7 +817,16 @@ def docGuards (cfg : Config) (bd : Built) : List String :=
       if cfg.alignVar && ((d.lines.zip outs).any fun (l, o) => !colonIsToken cfg l o) then ["var-colon-in-token"]
       else []
     | none => []
-  fallback ++ unrecorded.eraseDups ++ panic ++ wrapped ++ colon ++
+  -- `align_assignment_ops` pads a line at an index that is not the start of an `:=` / `=>` token
+  let asg := match core with
+    | some outs =>
+      let v := if cfg.alignVar then alignVarColons outs else outs
+      let a := alignedLines cfg outs
+      if cfg.alignAsg && ((d.lines.zip (v.zip a)).any fun (l, x, y) =>
+          x.text != y.text && !assignOpIsToken cfg.kwCase l.toks x.text) then ["assign-op-in-token"]
+      else []
+    | none => []
+  fallback ++ unrecorded.eraseDups ++ panic ++ wrapped ++ colon ++ asg ++
     (if bd.multiLinePragma then ["multiline-pragma"] else []) ++
     (if bd.openError then ["open-ended-error-token"] else []) ++
     (if bd.hasError then ["error-token"] else [])
